@@ -1,11 +1,16 @@
 //! Harness binary `h_autonat <PROP> --seed S --tier T [--count N] [--replay F]`.
 //! One module per property (`cNN.rs`, `pub fn run(args: &hcore::Args, out: &mut hcore::Out)`).
 
+mod c50;
+
+hcore::install_clock!();
+
 fn main() {
     let args = hcore::Args::parse();
     hcore::quiet_panics();
     let mut out = hcore::Out::new();
     match args.prop.as_str() {
+        "C50" => c50::run(&args, &mut out),
         p => {
             let _ = &mut out;
             eprintln!("h_autonat: unknown property {p}");
